@@ -229,3 +229,26 @@ def u_tracked_keys(ip):
             c.oblige("engine_default_is_all_kernel_keys", eng.f["_position_keys"] == ["a", "b", "c"])
         else:
             c.oblige("engine_respects_empty_selection", eng.f["_position_keys"] == [])
+
+
+@unit("C08.get_results", "C08", [f"{E}.get_results"])
+def u_get_results(ip):
+    """the results object hands out the engine's own chains: positions = the position chain, transition infos = the transition-info
+    chain, kernel states iff they were requested, kernel classes and key ownership by kernel identifier."""
+    c = ip.ctx
+    install_engine_models(ip)
+    for store in (False, True):
+        eng = sym_engine(ip)
+        eng.f["_store_kernel_states"] = store
+        k0 = PyObj("k0", identifier="kernel_00", position_keys=("a", "b"))
+        k1 = PyObj("k1", identifier="kernel_01", position_keys=("c",))
+        eng.f["_kernel_sequence"] = PyObj("kernel_sequence", get_kernels=PyFn(lambda ip_: [k0, k1], "get_kernels"))
+        ip.models["builtins.type"] = lambda ip_, x: ("type_of", x.name)
+        res = ip.call(method(ip, eng, "get_results"), [], {})
+        sfx = f".store{int(store)}"
+        c.oblige("positions_is_position_chain" + sfx, res.f["positions"] is eng.f["_position_chain"])
+        c.oblige("infos_is_transition_info_chain" + sfx, res.f["transition_infos"] is eng.f["_transition_info_chain"])
+        ks = res.f["kernel_states"].f["_value"]
+        c.oblige("kernel_states_iff_requested" + sfx, (ks is eng.f["_kernel_state_chain"]) if store else ks is None)
+        c.oblige("kernels_by_position_key" + sfx, res.f["kernels_by_pos_key"].f["_value"] == {"a": "kernel_00", "b": "kernel_00", "c": "kernel_01"})
+        c.oblige("kernel_classes_by_identifier" + sfx, list(res.f["kernel_classes"].f["_value"]) == ["kernel_00", "kernel_01"])
